@@ -59,6 +59,16 @@ def handleArgs (j : Json) : Except String Json := do
     return Json.mkObj [("groups", Json.arr out.toArray), ("overrides", toJson pos.overrides),
       ("searchDir", toJson pos.searchDir)]
 
+def handleChildEnv (j : Json) : Except String Json := do
+  let base : List (String × String) ← fromJson? (← j.getObjVal? "base")
+  let dotenv : List (String × String) ← fromJson? (← j.getObjVal? "dotenv")
+  let se : Bool ← fromJson? (← j.getObjVal? "setExport")
+  let un : List String ← fromJson? (← j.getObjVal? "unexports")
+  let chain : List (List EnvExport.Binding) ← fromJson? (← j.getObjVal? "chain")
+  let names : List String ← fromJson? (← j.getObjVal? "names")
+  let e := EnvExport.childEnv (fun n => base.lookup n) dotenv se un chain
+  return Json.mkObj [("env", Json.mkObj (names.map (fun n => (n, toJson (e n)))))]
+
 def handle (line : String) : Json :=
   match Json.parse line with
   | .error e => Json.mkObj [("fatal", s!"parse: {e}")]
@@ -70,6 +80,7 @@ def handle (line : String) : Json :=
       | "signals" => handleSignals j
       | "quote" => handleQuote j
       | "args" => handleArgs j
+      | "childenv" => handleChildEnv j
       | "shsplit" => handleShSplit j
       | _ => throw s!"unknown op {op}"
     match r with
